@@ -184,7 +184,8 @@ GENERATED = {"mergeprogs": "MergeProgs.lean", "lockfacts": "LockFacts.lean", "ev
 # translated units (tools/extract/gotrans REPO <unit>): one Lean module per Go function under Generated/<unit>/
 GOTRANS = {"gocircuit": "GoCircuit", "gohopener": "GoHOpener", "gohcloser": "GoHCloser", "goconsec": "GoConsec",
            "gorunstats": "GoRunStats", "gofbstats": "GoFbStats", "goslo": "GoSlo", "gotimedcheck": "GoTimedCheck", "golivecfg": "GoLiveCfg",
-           "gofanrun": "GoFanRun", "gofanfb": "GoFanFb", "gofancirc": "GoFanCirc", "gostream": "GoStream", "gosetcfg": "GoSetCfg"}
+           "gofanrun": "GoFanRun", "gofanfb": "GoFanFb", "gofancirc": "GoFanCirc", "gostream": "GoStream", "gosetcfg": "GoSetCfg",
+           "gorollingbuckets": "GoRollingBuckets", "gorollingcounter": "GoRollingCounter"}
 
 def regenerate(name):
     """re-run an extractor on REPO's working tree and (re)write lean/Generated/<file> if it changed.
